@@ -385,6 +385,52 @@ theorem resize_eq (env : Env) (v : Vec) (xs : List Id) (newLen : Nat) (value : I
       congr 2
       apply Vec.eq_of <;> simp [Vec.after, dropArg, truncateSpec_escaped]
 
+/-! ## extend_from_within_clone: the copy loop is the clone loop plus reads of initialised source slots -/
+
+theorem extendWithinLoop_eq_clone (n : Nat) : ∀ (xs : List Id) (v : Vec) (src : Nat) (o : List Outcome) (m : Nat),
+    v.slots = I xs ++ H m → v.len = xs.length → src + n ≤ xs.length →
+    extendWithinLoop n v src o = extendCloneLoop n v o := by
+  induction n with
+  | zero => intro xs v src o m _ _ _; simp [extendWithinLoop, extendCloneLoop]
+  | succ n ih =>
+    intro xs v src o m hs hl hsrc
+    have hlt : src < xs.length := by omega
+    have hpk : peek v src = .ok (xs[src]) := by
+      unfold peek; rw [hs]; simp [I, List.getElem?_append_left, hlt]
+    simp only [extendWithinLoop, hpk]
+    match o with
+    | [] => simp [extendCloneLoop]
+    | .panic :: o => simp [extendCloneLoop]
+    | .ret id :: o =>
+      simp only [extendCloneLoop]
+      cases m with
+      | zero =>
+        have : write v v.len id = .error (.outOfBounds v.len) := by
+          unfold write; rw [hs]; simp [hl]
+        rw [this]
+      | succ m =>
+        have hs1 : v.slots = I xs ++ Slot.hole :: H m := by rw [hs]; simp
+        rw [write_mid hs1 (by simp [hl])]
+        simp only
+        exact ih (xs ++ [id]) _ (src + 1) o m (by simp [setLen]) (by simp [setLen, hl]) (by simp; omega)
+
+theorem extendFromWithinClone_eq (env : Env) (v : Vec) (xs : List Id) (start end_ : Nat) (o : List Outcome)
+    (hs : v.slots = I xs ++ H (v.cap - v.len)) (hl : xs.length = v.len) (hr : start ≤ end_ ∧ end_ ≤ v.len) :
+    extendFromWithinClone env v start end_ o = extendFromSliceClone env v (end_ - start) o := by
+  unfold extendFromWithinClone extendFromSliceClone
+  rw [if_neg (by omega)]
+  cases hres : reserve env v (end_ - start) with
+  | none => rfl
+  | some v' =>
+    have ⟨g, _⟩ := reserve_some hs hl hres
+    simp only
+    exact extendWithinLoop_eq_clone (end_ - start) xs v' start o _ g.slots (by rw [g.len, hl]) (by omega)
+
+theorem extendFromWithinClone_bad (env : Env) (v : Vec) (start end_ : Nat) (o : List Outcome)
+    (hr : start > end_ ∨ end_ > v.len) :
+    extendFromWithinClone env v start end_ o = .ok ⟨v, .panic false, o⟩ := by
+  unfold extendFromWithinClone; rw [if_pos hr]
+
 /-! ## resize_with / pop_if -/
 
 theorem extendCloneSpec_exit (n : Nat) : ∀ (xs : List Id) (o : List Outcome),
